@@ -426,4 +426,360 @@ theorem stepTask_boxstep (tbl : Table) (w : Worker) (out : List Msg) (t0 : Task)
             omega
         · exact key
 
+/-- one iteration of the main loop -/
+theorem step_boxstep (tbl : Table) (w : Worker) (hf : Fresh w)
+    (hu : ∀ b, cntA b w.tasks + cntA b w.delayed ≤ 1)
+    (hcr : ∀ a, 0 < tokW a w → ¬ (w.id = a.w ∧ w.counter ≤ a.m)) :
+    BoxStep w (w.step tbl).w (w.step tbl).out := by
+  have hb := pick_boxes w.pickFuel { w with blocked := false }
+  have hm := pick_mono w.pickFuel { w with blocked := false }
+  have hrs := pick_rs w.pickFuel { w with blocked := false }
+  unfold Worker.step
+  dsimp only
+  split
+  · exact BoxStep.of_keep (BoxKeep.of_eq hb)
+  · rename_i t0 ht0
+    have hmem := pick_task_mem _ _ _ ht0
+    have hpos1 : 0 < cntA t0.addr (Worker.pick w.pickFuel { w with blocked := false }).w.tasks :=
+      cntA_pos_of_mem _ _ (taskGet_mem _ _ _ hmem)
+    have htok := hrs.tok t0.addr
+    have hu0 := hu t0.addr
+    have hposw : 0 < tokW t0.addr w := by
+      simp only [tokW] at htok ⊢
+      omega
+    have hd0 : cntA t0.addr (Worker.pick w.pickFuel { w with blocked := false }).w.delayed = 0 := by
+      simp only [tokW] at htok
+      omega
+    have hcr0 := hcr t0.addr hposw
+    have hfp : Fresh (Worker.pick w.pickFuel { w with blocked := false }).w := by
+      intro k hk
+      have : k ∈ keys w.boxes := by rw [← show ({ w with blocked := false } : Worker).boxes = w.boxes from rfl, ← hb]; exact hk
+      exact Nat.lt_of_lt_of_le (hf k this) hm.ctr
+    have key := stepTask_boxstep tbl (Worker.pick w.pickFuel { w with blocked := false }).w
+      (Worker.pick w.pickFuel { w with blocked := false }).out t0 hfp hmem hd0
+      (by intro hc; apply hcr0; exact ⟨by rw [← hm.id]; exact hc.1, Nat.le_trans hm.ctr hc.2⟩)
+      (pick_outP (noTokP_outP t0.addr w.id w.counter hcr0) _ _)
+    intro k b' hk
+    rcases key k b' hk with ⟨b, h1, h2, h3⟩ | ⟨h1, h2⟩ | ⟨b, a0, h1, h2, h3, h4, h5, h6, h7⟩
+    · exact Or.inl ⟨b, by rw [hb] at h1; exact h1, h2, h3⟩
+    · exact Or.inr (Or.inl ⟨Nat.le_trans hm.ctr h1, h2⟩)
+    · refine Or.inr (Or.inr ⟨b, a0, by rw [hb] at h1; exact h1, h2, h3, h4, by rw [h5]; exact hm.id, ?_, h7⟩)
+      exact Nat.lt_of_lt_of_le h6 (hrs.tok a0)
+
+-- ------------------------------------------------------- slots of created tokens
+def Msg.tasks : Msg → List Task
+  | .submit t => [t]
+  | .batch ts => ts
+  | _ => []
+
+/-- every mailbox of `w'` is a mailbox of `w` with the same `expected_num_results` -/
+def ExpKeep (w w' : Worker) : Prop :=
+  ∀ k b', boxGet w'.boxes k = some b' → ∃ b, boxGet w.boxes k = some b ∧ b'.expected = b.expected
+
+theorem ExpKeep.refl (w : Worker) : ExpKeep w w := fun _ b' h => ⟨b', h, rfl⟩
+
+theorem ExpKeep.trans {a b c : Worker} (h1 : ExpKeep a b) (h2 : ExpKeep b c) : ExpKeep a c := by
+  intro k x hx
+  obtain ⟨y, hy, e⟩ := h2 k x hx
+  obtain ⟨z, hz, f⟩ := h1 k y hy
+  exact ⟨z, hz, e.trans f⟩
+
+theorem ExpKeep.of_eq {w w' : Worker} (h : w'.boxes = w.boxes) : ExpKeep w w' :=
+  fun _ b' hb => ⟨b', h ▸ hb, rfl⟩
+
+theorem ExpKeep.filter (w w' : Worker) (q : Nat → Bool) (h : w'.boxes = w.boxes.filter (fun p => q p.1)) :
+    ExpKeep w w' := by
+  intro k b' hb
+  rw [h] at hb
+  exact ⟨b', (boxGet_filter_some _ _ _ _ hb).1, rfl⟩
+
+theorem ExpKeep.set (w w' : Worker) (m : Nat) (b nb : Box) (hb : boxGet w.boxes m = some b)
+    (h : w'.boxes = boxSet w.boxes m nb) (he : nb.expected = b.expected) : ExpKeep w w' := by
+  intro k b' hk
+  rw [h] at hk
+  rcases boxGet_boxSet_cases _ _ _ _ _ hk with ⟨rfl, rfl⟩ | ⟨_, hk'⟩
+  · exact ⟨b, hb, he⟩
+  · exact ⟨b', hk', rfl⟩
+
+theorem completionLoop_expkeep (ms : List Nat) (r : Run) : ExpKeep r.w (completionLoop ms r).1.w := by
+  induction ms generalizing r with
+  | nil => exact ExpKeep.refl _
+  | cons m ms ih =>
+    simp only [completionLoop]
+    split
+    · split
+      · exact (ExpKeep.filter r.w _ (fun x => x != m) rfl).trans (ih _)
+      · exact (ExpKeep.filter r.w (r.cancelBox m _).w (fun x => x != m) rfl).trans (ih _)
+    · exact ExpKeep.refl _
+
+theorem finishStep_expkeep (r : Run) (oc : Outcome) : ExpKeep r.w (finishStep r oc).w := by
+  cases oc with
+  | awaitF m nxt =>
+    simp only [finishStep]
+    split
+    · rename_i r1 h1
+      unfold processAwait at h1
+      split at h1
+      · simp at h1
+      · rename_i b hb
+        simp only [Option.some.injEq] at h1
+        rw [← h1]
+        dsimp only
+        split
+        · exact ExpKeep.set r.w _ m b _ hb rfl rfl
+        · exact ExpKeep.set r.w _ m b _ hb rfl rfl
+    · split <;> exact ExpKeep.refl _
+  | err cls isRt =>
+    simp only [finishStep, bubbleErr]
+    split <;> exact ExpKeep.refl _
+  | done v =>
+    have key : ExpKeep r.w (processCompletion r v).1.w := by
+      unfold processCompletion
+      split
+      · exact ExpKeep.refl _
+      · refine ExpKeep.trans ?_ (completionLoop_expkeep _ _)
+        by_cases hloc : r.t.addr.w = r.w.id
+        · obtain ⟨c1, _⟩ := completionEnter_local r v hloc
+          intro k b' hk
+          rw [c1] at hk
+          obtain ⟨b, h1, h2, _⟩ := handleResult_boxes r.w r.t.addr v k b' hk
+          exact ⟨b, h1, h2⟩
+        · exact ExpKeep.of_eq (completionEnter_remote r v hloc).1
+    simp only [finishStep]
+    split
+    · exact key.trans (ExpKeep.of_eq rfl)
+    · exact key
+
+/-- tasks in the output were created below the counter, for a slot of their mailbox -/
+def SJ (r : Run) : Prop :=
+  ∀ msg ∈ r.out, ∀ t ∈ msg.tasks, t.addr.m < r.w.counter ∧
+    ∀ b, boxGet r.w.boxes t.addr.m = some b → t.addr.s < b.expected
+
+theorem mem_enumFrom {α} (j : Nat) (l : List α) (p : Nat × α) (h : p ∈ enumFrom j l) :
+    j ≤ p.1 ∧ p.1 < j + l.length := by
+  induction l generalizing j with
+  | nil => simp [enumFrom] at h
+  | cons x xs ih =>
+    simp only [enumFrom, List.mem_cons] at h
+    rcases h with rfl | h
+    · simp
+    · have := ih (j + 1) h
+      simp only [List.length_cons]
+      omega
+
+theorem runBody_sj (tbl : Table) (fuel : Nat) (r : Run) (hf : Fresh r.w) (h : SJ r) :
+    SJ (runBody tbl fuel r).1 := by
+  induction fuel generalizing r with
+  | zero => exact h
+  | succ n ih =>
+    have hnone : boxGet r.w.boxes r.w.counter = none := by
+      rw [boxGet_none_iff]
+      intro hk
+      exact Nat.lt_irrefl _ (hf _ hk)
+    -- a new mailbox with `e` expected results and a message whose tasks use slots below `e`
+    have hnew : ∀ (nb : Box) (msg : Msg) (t' : Task) (ev : List Ev),
+        (∀ t ∈ msg.tasks, t.addr.m = r.w.counter ∧ t.addr.s < nb.expected) →
+        SJ { w := { r.w with counter := r.w.counter + 1, boxes := r.w.boxes ++ [(r.w.counter, nb)] },
+             t := t', out := r.out ++ [msg], evs := ev } := by
+      intro nb msg t' ev hmsg x hx t ht
+      rcases List.mem_append.1 hx with hx | hx
+      · obtain ⟨h1, h2⟩ := h x hx t ht
+        refine ⟨Nat.lt_succ_of_lt h1, ?_⟩
+        intro b hb
+        have hb' : boxGet (r.w.boxes ++ [(r.w.counter, nb)]) t.addr.m = some b := hb
+        rw [boxGet_append] at hb'
+        cases hg : boxGet r.w.boxes t.addr.m with
+        | some b0 => rw [hg] at hb'; exact h2 b (by rw [hg, ← Option.some.inj hb'])
+        | none =>
+          rw [hg] at hb'
+          have : r.w.counter ≠ t.addr.m := fun e => Nat.lt_irrefl _ (e ▸ h1)
+          simp [this] at hb'
+      · simp only [List.mem_singleton] at hx
+        subst hx
+        obtain ⟨e1, e2⟩ := hmsg t ht
+        refine ⟨by show t.addr.m < r.w.counter + 1; omega, ?_⟩
+        intro b hb
+        have hb' : boxGet (r.w.boxes ++ [(r.w.counter, nb)]) t.addr.m = some b := hb
+        rw [boxGet_append, e1, hnone] at hb'
+        simp only [if_true, Option.some.injEq] at hb'
+        rw [← hb']; exact e2
+    simp only [runBody]
+    split
+    · refine ih _ ((newBox_mono r.w _).fresh hf) (hnew (Box.new none) _ _ _ ?_)
+      intro t ht
+      simp only [Msg.tasks, List.mem_singleton] at ht
+      subst ht
+      exact ⟨rfl, Nat.lt_succ_self 0⟩
+    · split
+      · exact h
+      · rename_i ps _ _
+        refine ih _ ((newBox_mono r.w _).fresh hf) (hnew (Box.new (some ps.length)) _ _ _ ?_)
+        intro t ht
+        simp only [Msg.tasks, List.mem_map] at ht
+        obtain ⟨ip, hip, rfl⟩ := ht
+        have := mem_enumFrom 0 ps ip hip
+        exact ⟨rfl, by show ip.1 < ps.length; omega⟩
+    · split <;> exact h
+    · split
+      · exact h
+      · split <;> exact h
+    · split
+      · exact h
+      · split
+        · exact h
+        · split
+          · exact h
+          · rename_i k _ _ m _ _ b _ _
+            refine ih _ ((cancelBox_mono { w := r.w, t := r.t, out := r.out, evs := r.evs ++ [Ev.cancel r.t.tag k] } m b).fresh hf) ?_
+            intro x hx t ht
+            have hx' : x ∈ r.out ++ (List.range b.expected).map (fun i => Msg.cancel ⟨r.w.id, m, i⟩) := hx
+            rcases List.mem_append.1 hx' with hx' | hx'
+            · obtain ⟨h1, h2⟩ := h x hx' t ht
+              refine ⟨h1, ?_⟩
+              intro b2 hb2
+              exact h2 b2 (boxGet_boxErase_some _ _ _ _ hb2).1
+            · obtain ⟨i, _, rfl⟩ := List.mem_map.1 hx'
+              cases ht
+    · exact h
+    · exact h
+
+theorem cancelBox_out_sub (r : Run) (m : Nat) (b : Box) :
+    ∀ msg ∈ (r.cancelBox m b).out, msg ∈ r.out ∨ msg.tasks = [] := by
+  intro msg hm
+  simp only [Run.cancelBox, List.mem_append, List.mem_map] at hm
+  rcases hm with hm | ⟨i, _, rfl⟩
+  · exact Or.inl hm
+  · exact Or.inr rfl
+
+theorem completionLoop_out_sub (ms : List Nat) (r : Run) :
+    ∀ msg ∈ (completionLoop ms r).1.out, msg ∈ r.out ∨ msg.tasks = [] := by
+  induction ms generalizing r with
+  | nil => intro msg h; exact Or.inl h
+  | cons m ms ih =>
+    simp only [completionLoop]
+    split
+    · split
+      · exact ih _
+      · intro msg hm
+        rcases ih _ msg hm with h | h
+        · exact cancelBox_out_sub r m _ msg h
+        · exact Or.inr h
+    · intro msg h; exact Or.inl h
+
+theorem finishStep_out_sub (r : Run) (oc : Outcome) :
+    ∀ msg ∈ (finishStep r oc).out, msg ∈ r.out ∨ msg.tasks = [] := by
+  have app : ∀ (l : List Msg) (x : Msg), x.tasks = [] → (∀ msg ∈ l, msg ∈ r.out ∨ msg.tasks = []) →
+      ∀ msg ∈ l ++ [x], msg ∈ r.out ∨ msg.tasks = [] := by
+    intro l x hx hl msg hm
+    rcases List.mem_append.1 hm with hm | hm
+    · exact hl msg hm
+    · simp only [List.mem_singleton] at hm; subst hm; exact Or.inr hx
+  have base : ∀ msg ∈ r.out, msg ∈ r.out ∨ msg.tasks = [] := fun _ h => Or.inl h
+  cases oc with
+  | awaitF m nxt =>
+    simp only [finishStep]
+    split
+    · rename_i r1 h1
+      rw [(processAwait_tables r r1 m nxt h1).2.2.1]; exact base
+    · split
+      · exact base
+      · exact app _ _ rfl base
+  | err cls isRt =>
+    simp only [finishStep, bubbleErr]
+    split
+    · exact base
+    · exact app _ _ rfl base
+  | done v =>
+    have key : ∀ msg ∈ (processCompletion r v).1.out, msg ∈ r.out ∨ msg.tasks = [] := by
+      unfold processCompletion
+      split
+      · exact base
+      · intro msg hm
+        rcases completionLoop_out_sub _ _ msg hm with h | h
+        · revert h
+          unfold completionEnter
+          split
+          · intro h; exact app _ _ rfl base msg h
+          · intro h; exact app _ _ rfl base msg h
+        · exact Or.inr h
+    simp only [finishStep]
+    split
+    · exact app _ _ rfl key
+    · exact key
+
+theorem pick_out_notasks (fuel : Nat) (w : Worker) : ∀ msg ∈ (Worker.pick fuel w).out, msg.tasks = [] := by
+  induction fuel generalizing w with
+  | zero => intro msg h; simp [Worker.pick] at h
+  | succ n ih =>
+    simp only [Worker.pick]
+    split
+    · split
+      · exact ih _
+      · intro msg h
+        simp only [List.mem_singleton] at h
+        subst h; rfl
+    · split
+      · exact ih _
+      · split
+        · exact ih _
+        · split
+          · exact ih _
+          · intro msg h; simp at h
+
+theorem stepTask_slots (tbl : Table) (w : Worker) (out : List Msg) (t0 : Task) (hf : Fresh w)
+    (hout : ∀ msg ∈ out, msg.tasks = []) :
+    ∀ msg ∈ (stepTask tbl w out t0).out, ∀ t ∈ msg.tasks,
+      ∀ b, boxGet (stepTask tbl w out t0).w.boxes t.addr.m = some b → t.addr.s < b.expected := by
+  have none_of : ∀ (l : List Msg) (x : Msg), x.tasks = [] → (∀ msg ∈ l, msg.tasks = []) →
+      ∀ msg ∈ l ++ [x], msg.tasks = [] := by
+    intro l x hx hl msg hm
+    rcases List.mem_append.1 hm with hm | hm
+    · exact hl msg hm
+    · simp only [List.mem_singleton] at hm; subst hm; exact hx
+  unfold stepTask
+  split
+  · intro msg hm t ht
+    rw [none_of _ _ rfl hout msg hm] at ht; cases ht
+  · rename_i w1 t1 val hd
+    have M1 := desiredResult_mono w w1 t0 t1 val hd
+    split
+    · simp only [bubbleErr]
+      split
+      · intro msg hm t ht
+        rw [hout msg hm] at ht; cases ht
+      · intro msg hm t ht
+        rw [none_of _ _ rfl hout msg hm] at ht; cases ht
+    · have h0 : SJ { w := w1, t := (resume tbl t1 val).1, out := out, evs := (resume tbl t1 val).2 } := by
+        intro msg hm t ht
+        rw [hout msg hm] at ht; cases ht
+      have hsj := runBody_sj tbl ((tbl.getD t1.prog []).length + 2) _ (M1.fresh hf) h0
+      generalize (runBody tbl ((tbl.getD t1.prog []).length + 2)
+        { w := w1, t := (resume tbl t1 val).1, out := out, evs := (resume tbl t1 val).2 }) = rb at hsj
+      dsimp only
+      intro msg hm t ht b hb
+      rcases finishStep_out_sub rb.1 rb.2 msg hm with h1 | h1
+      · obtain ⟨b0, hb0, e⟩ := finishStep_expkeep rb.1 rb.2 _ b hb
+        rw [e]
+        exact (hsj msg h1 t ht).2 b0 hb0
+      · rw [h1] at ht; cases ht
+
+/-- tokens created by a loop iteration belong to slots of the mailbox created with them -/
+theorem step_slots (tbl : Table) (w : Worker) (hf : Fresh w) :
+    ∀ msg ∈ (w.step tbl).out, ∀ t ∈ msg.tasks,
+      ∀ b, boxGet (w.step tbl).w.boxes t.addr.m = some b → t.addr.s < b.expected := by
+  have hb := pick_boxes w.pickFuel { w with blocked := false }
+  have hm := pick_mono w.pickFuel { w with blocked := false }
+  unfold Worker.step
+  dsimp only
+  split
+  · intro msg hmsg t ht
+    rw [pick_out_notasks _ _ msg hmsg] at ht; cases ht
+  · rename_i t0 ht0
+    apply stepTask_slots
+    · intro k hk
+      have : k ∈ keys w.boxes := by
+        rw [← show ({ w with blocked := false } : Worker).boxes = w.boxes from rfl, ← hb]; exact hk
+      exact Nat.lt_of_lt_of_le (hf k this) hm.ctr
+    · exact pick_out_notasks _ _
+
 end BqVerif.Runtime
